@@ -203,7 +203,14 @@ Proof. intros. replace 2 with (1 + 1) by ring. rewrite Rpower_plus, Rpower_1 by 
 Ltac pw_eq := f_equal; field; lra.
 Ltac tup := repeat (match goal with |- (_, _) = (_, _) => apply f_equal2 end).
 
+Lemma guard_pos clamp b : 0 < b -> guard R RS clamp b = b.
+Proof.
+  intros H. unfold guard, smax. destruct clamp; [| reflexivity]. cbn [sltb s0 RS ROps].
+  assert (E : Rltb 0 b = true) by (apply Rltb_true; exact H). rewrite E. reflexivity.
+Qed.
+
 Section RightRarefaction.
+  Variable clamp : bool.
   Variables g rho u P a Ps : R.
   Hypothesis Hg : 1 < g.
   Hypothesis Hrho : 0 < rho.
@@ -262,23 +269,27 @@ Section RightRarefaction.
   (* ---- inside the fan ---- *)
   Definition rfan_base (xi : R) : R := 2 / (g + 1) - (g - 1) / (g + 1) * (u - xi) / a.
 
-  Lemma right_fan_eq xi :
-    right_fan R RS c rho u P a xi =
+  Lemma right_fan_eq xi : 0 < rfan_base xi ->
+    right_fan R RS c clamp rho u P a xi =
     (rho * Rpower (rfan_base xi) (2 / (g - 1)), 2 / (g + 1) * (- a + 1 / 2 * (g - 1) * u + xi), P * Rpower (rfan_base xi) (2 * g / (g - 1))).
-  Proof. unfold right_fan, rfan_base, c. rops. reflexivity. Qed.
+  Proof.
+    intros Hb. unfold right_fan, c. rops.
+    change (2 / (g + 1) - (g - 1) / (g + 1) * (u - xi) / a) with (rfan_base xi).
+    rewrite (guard_pos clamp _ Hb). reflexivity.
+  Qed.
 
   Section InFan.
     Variable xi : R.
     Hypothesis Hb : 0 < rfan_base xi.
     Let b := rfan_base xi.
-    Let rhof := fst (fst (right_fan R RS c rho u P a xi)).
-    Let uf := snd (fst (right_fan R RS c rho u P a xi)).
-    Let Pf := snd (right_fan R RS c rho u P a xi).
+    Let rhof := fst (fst (right_fan R RS c clamp rho u P a xi)).
+    Let uf := snd (fst (right_fan R RS c clamp rho u P a xi)).
+    Let Pf := snd (right_fan R RS c clamp rho u P a xi).
     Let af := a * b.
 
     Lemma rr_fan_isentropic : Pf / Rpower rhof g = P / Rpower rho g.
     Proof.
-      unfold Pf, rhof. rewrite right_fan_eq. cbn [fst snd]. fold b.
+      unfold Pf, rhof. rewrite right_fan_eq by exact Hb. cbn [fst snd]. fold b.
       rewrite <- Rpower_mult_distr by (try assumption; apply Rpower_pos).
       rewrite Rpower_mult. replace (2 / (g - 1) * g) with (2 * g / (g - 1)) by (field; lra).
       assert (0 < Rpower rho g) by apply Rpower_pos. assert (0 < Rpower b (2 * g / (g - 1))) by apply Rpower_pos.
@@ -287,7 +298,7 @@ Section RightRarefaction.
 
     Lemma rr_fan_soundspeed : af * af = g * Pf / rhof.
     Proof.
-      unfold af, Pf, rhof. rewrite right_fan_eq. cbn [fst snd]. fold b.
+      unfold af, Pf, rhof. rewrite right_fan_eq by exact Hb. cbn [fst snd]. fold b.
       replace (a * b * (a * b)) with (a * a * (b * b)) by ring. rewrite Ha2.
       assert (E : Rpower b (2 * g / (g - 1)) = b * b * Rpower b (2 / (g - 1))).
       { rewrite <- Rpower_sq by assumption. rewrite <- Rpower_plus. pw_eq. }
@@ -297,12 +308,12 @@ Section RightRarefaction.
     (* the fan is made of u + a characteristics: x/t = u + a *)
     Lemma rr_fan_characteristic : uf + af = xi.
     Proof.
-      unfold af, uf. rewrite right_fan_eq. cbn [fst snd]. unfold b, rfan_base. field. split; lra.
+      unfold af, uf. rewrite right_fan_eq by exact Hb. cbn [fst snd]. unfold b, rfan_base. field. split; lra.
     Qed.
 
     Lemma rr_fan_invariant : uf - 2 / (g - 1) * af = u - 2 / (g - 1) * a.
     Proof.
-      unfold af, uf. rewrite right_fan_eq. cbn [fst snd]. unfold b, rfan_base. field. repeat split; lra.
+      unfold af, uf. rewrite right_fan_eq by exact Hb. cbn [fst snd]. unfold b, rfan_base. field. repeat split; lra.
     Qed.
   End InFan.
 
@@ -310,18 +321,18 @@ Section RightRarefaction.
   Lemma rr_base_head : rfan_base (u + a) = 1.
   Proof. unfold rfan_base. field. split; lra. Qed.
 
-  Lemma rr_fan_head : right_fan R RS c rho u P a (u + a) = (rho, u, P).
+  Lemma rr_fan_head : right_fan R RS c clamp rho u P a (u + a) = (rho, u, P).
   Proof.
-    rewrite right_fan_eq, rr_base_head, !Rpower_base1.
+    rewrite right_fan_eq by (rewrite rr_base_head; lra). rewrite rr_base_head, !Rpower_base1.
     tup; field; lra.
   Qed.
 
   Lemma rr_base_tail : rfan_base (us + as_) = x.
   Proof. unfold rfan_base, us, as_. rewrite fb_raref. unfold afac, c. rops. field. repeat split; lra. Qed.
 
-  Lemma rr_fan_tail : right_fan R RS c rho u P a (us + as_) = (rhos, us, Ps).
+  Lemma rr_fan_tail : right_fan R RS c clamp rho u P a (us + as_) = (rhos, us, Ps).
   Proof.
-    rewrite right_fan_eq, rr_base_tail. assert (Pp := pi_pos).
+    assert (Px := x_pos). rewrite right_fan_eq by (rewrite rr_base_tail; exact Px). rewrite rr_base_tail. assert (Pp := pi_pos).
     tup.
     - unfold rhos, x. rewrite Rpower_mult. f_equal. pw_eq.
     - unfold us, as_. rewrite fb_raref. unfold afac, c. rops. field. lra.
@@ -360,9 +371,9 @@ Section RightRarefaction.
 
   (* what the sampler returns, by position *)
   Lemma sample_rr_cases xi :
-    sample_right_rarefaction_wave R RS c rho u P a Pinv us Ps xi =
+    sample_right_rarefaction_wave R RS c clamp rho u P a Pinv us Ps xi =
     if Rlt_dec xi (us + as_) then (rhos, us, Ps)
-    else if Rlt_dec xi (u + a) then right_fan R RS c rho u P a xi
+    else if Rlt_dec xi (u + a) then right_fan R RS c clamp rho u P a xi
     else (rho, u, P).
   Proof.
     unfold sample_right_rarefaction_wave. rewrite rr_tail_speed.
@@ -376,6 +387,7 @@ End RightRarefaction.
 
 
 Section LeftRarefaction.
+  Variable clamp : bool.
   Variables g rho u P a Ps : R.
   Hypothesis Hg : 1 < g.
   Hypothesis Hrho : 0 < rho.
@@ -434,23 +446,27 @@ Section LeftRarefaction.
   (* ---- inside the fan ---- *)
   Definition lfan_base (xi : R) : R := 2 / (g + 1) + (g - 1) / (g + 1) * (u - xi) / a.
 
-  Lemma left_fan_eq xi :
-    left_fan R RS c rho u P a xi =
+  Lemma left_fan_eq xi : 0 < lfan_base xi ->
+    left_fan R RS c clamp rho u P a xi =
     (rho * Rpower (lfan_base xi) (2 / (g - 1)), 2 / (g + 1) * (a + 1 / 2 * (g - 1) * u + xi), P * Rpower (lfan_base xi) (2 * g / (g - 1))).
-  Proof. unfold left_fan, lfan_base, c. rops. reflexivity. Qed.
+  Proof.
+    intros Hb. unfold left_fan, c. rops.
+    change (2 / (g + 1) + (g - 1) / (g + 1) * (u - xi) / a) with (lfan_base xi).
+    rewrite (guard_pos clamp _ Hb). reflexivity.
+  Qed.
 
   Section InFan.
     Variable xi : R.
     Hypothesis Hb : 0 < lfan_base xi.
     Let b := lfan_base xi.
-    Let rhof := fst (fst (left_fan R RS c rho u P a xi)).
-    Let uf := snd (fst (left_fan R RS c rho u P a xi)).
-    Let Pf := snd (left_fan R RS c rho u P a xi).
+    Let rhof := fst (fst (left_fan R RS c clamp rho u P a xi)).
+    Let uf := snd (fst (left_fan R RS c clamp rho u P a xi)).
+    Let Pf := snd (left_fan R RS c clamp rho u P a xi).
     Let af := a * b.
 
     Lemma lr_fan_isentropic : Pf / Rpower rhof g = P / Rpower rho g.
     Proof.
-      unfold Pf, rhof. rewrite left_fan_eq. cbn [fst snd]. fold b.
+      unfold Pf, rhof. rewrite left_fan_eq by exact Hb. cbn [fst snd]. fold b.
       rewrite <- Rpower_mult_distr by (try assumption; apply Rpower_pos).
       rewrite Rpower_mult. replace (2 / (g - 1) * g) with (2 * g / (g - 1)) by (field; lra).
       assert (0 < Rpower rho g) by apply Rpower_pos. assert (0 < Rpower b (2 * g / (g - 1))) by apply Rpower_pos.
@@ -459,7 +475,7 @@ Section LeftRarefaction.
 
     Lemma lr_fan_soundspeed : af * af = g * Pf / rhof.
     Proof.
-      unfold af, Pf, rhof. rewrite left_fan_eq. cbn [fst snd]. fold b.
+      unfold af, Pf, rhof. rewrite left_fan_eq by exact Hb. cbn [fst snd]. fold b.
       replace (a * b * (a * b)) with (a * a * (b * b)) by ring. rewrite Ha2.
       assert (E : Rpower b (2 * g / (g - 1)) = b * b * Rpower b (2 / (g - 1))).
       { rewrite <- Rpower_sq by assumption. rewrite <- Rpower_plus. pw_eq. }
@@ -469,12 +485,12 @@ Section LeftRarefaction.
     (* the fan is made of u - a characteristics: x/t = u - a *)
     Lemma lr_fan_characteristic : uf - af = xi.
     Proof.
-      unfold af, uf. rewrite left_fan_eq. cbn [fst snd]. unfold b, lfan_base. field. split; lra.
+      unfold af, uf. rewrite left_fan_eq by exact Hb. cbn [fst snd]. unfold b, lfan_base. field. split; lra.
     Qed.
 
     Lemma lr_fan_invariant : uf + 2 / (g - 1) * af = u + 2 / (g - 1) * a.
     Proof.
-      unfold af, uf. rewrite left_fan_eq. cbn [fst snd]. unfold b, lfan_base. field. repeat split; lra.
+      unfold af, uf. rewrite left_fan_eq by exact Hb. cbn [fst snd]. unfold b, lfan_base. field. repeat split; lra.
     Qed.
   End InFan.
 
@@ -482,18 +498,18 @@ Section LeftRarefaction.
   Lemma lr_base_head : lfan_base (u - a) = 1.
   Proof. unfold lfan_base. field. split; lra. Qed.
 
-  Lemma lr_fan_head : left_fan R RS c rho u P a (u - a) = (rho, u, P).
+  Lemma lr_fan_head : left_fan R RS c clamp rho u P a (u - a) = (rho, u, P).
   Proof.
-    rewrite left_fan_eq, lr_base_head, !Rpower_base1.
+    rewrite left_fan_eq by (rewrite lr_base_head; lra). rewrite lr_base_head, !Rpower_base1.
     tup; field; lra.
   Qed.
 
   Lemma lr_base_tail : lfan_base (us - as_) = x.
   Proof. unfold lfan_base, us, as_. rewrite fb_raref_l. unfold afac, c. rops. field. repeat split; lra. Qed.
 
-  Lemma lr_fan_tail : left_fan R RS c rho u P a (us - as_) = (rhos, us, Ps).
+  Lemma lr_fan_tail : left_fan R RS c clamp rho u P a (us - as_) = (rhos, us, Ps).
   Proof.
-    rewrite left_fan_eq, lr_base_tail. assert (Pp := lpi_pos).
+    assert (Px := lx_pos). rewrite left_fan_eq by (rewrite lr_base_tail; exact Px). rewrite lr_base_tail. assert (Pp := lpi_pos).
     tup.
     - unfold rhos, x. rewrite Rpower_mult. f_equal. pw_eq.
     - unfold us, as_. rewrite fb_raref_l. unfold afac, c. rops. field. lra.
@@ -514,9 +530,9 @@ Section LeftRarefaction.
 
   (* what the sampler returns, by position *)
   Lemma sample_lr_cases xi :
-    sample_left_rarefaction_wave R RS c rho u P a Pinv us Ps xi =
+    sample_left_rarefaction_wave R RS c clamp rho u P a Pinv us Ps xi =
     if Rlt_dec (u - a) xi then
-      if Rlt_dec xi (us - as_) then left_fan R RS c rho u P a xi else (rhos, us, Ps)
+      if Rlt_dec xi (us - as_) then left_fan R RS c clamp rho u P a xi else (rhos, us, Ps)
     else (rho, u, P).
   Proof.
     unfold sample_left_rarefaction_wave. rewrite lr_tail_speed.
@@ -541,34 +557,44 @@ Section LeftRarefaction.
 End LeftRarefaction.
 
 
+(* ---------------- the vacuum part of this model (clamp = true, the guarded fan bases) IS the model of C05_Defs.v, for every scalar instance ---------------- *)
+Lemma solve_novac_is_c05 (F : Type) (S : SOps F) (c : xconsts F) rhoL uL PL rhoR uR PR dxdt :
+  solve_novac F S c true rhoL uL PL rhoR uR PR dxdt = exact_solve_novac F S (cb F c) false rhoL uL PL rhoR uR PR dxdt.
+Proof.
+  unfold solve_novac, exact_solve_novac, solve_vacuum, exact_solve_vacuum,
+         sample_right_vacuum, C05_Defs.sample_right_vacuum, sample_left_vacuum, C05_Defs.sample_left_vacuum,
+         sample_vacuum_generation, C05_Defs.sample_vacuum_generation, left_fan, right_fan, guard, with_flag, fan_coeff,
+         soundspeed, get_soundspeed.
+  reflexivity.
+Qed.
+
 (* ---------------- (c) vacuum fans ---------------- *)
 Section Vacuum.
+  Variable clamp : bool.
   Variables g rho u P a : R.
   Hypothesis Hg : 1 < g.
   Hypothesis Ha : 0 < a.
   Let c := rconsts g.
 
-  Definition with_flag (fl : Z) (s : R * R * R) : Z * R * R * R := let '(r, v, p) := s in (fl, r, v, p).
-
   (* gas on the left, vacuum on the right: between head u - a and front u + 2a/(g-1) the sampler IS the
      left rarefaction fan of the non-vacuum solver *)
   Lemma right_vacuum_cases xi :
-    sample_right_vacuum R RS (cb R c) rho u P a xi =
+    sample_right_vacuum R RS c clamp rho u P a xi =
     if Rlt_dec (u - a) xi then
-      if Rlt_dec xi (u + 2 / (g - 1) * a) then with_flag (-1) (left_fan R RS c rho u P a xi) else (0%Z, 0, 0, 0)
+      if Rlt_dec xi (u + 2 / (g - 1) * a) then with_flag R (-1) (left_fan R RS c clamp rho u P a xi) else (0%Z, 0, 0, 0)
     else ((-1)%Z, rho, u, P).
   Proof.
-    unfold sample_right_vacuum, left_fan, with_flag, c. rops. unfold Rltb.
+    unfold sample_right_vacuum, c. rops. unfold Rltb.
     destruct (Rlt_dec (u - a) xi); destruct (Rlt_dec xi (u + 2 / (g - 1) * a)); reflexivity.
   Qed.
 
   Lemma left_vacuum_cases xi :
-    sample_left_vacuum R RS (cb R c) false rho u P a xi =
+    sample_left_vacuum R RS c clamp rho u P a xi =
     if Rlt_dec xi (u + a) then
-      if Rlt_dec (u - 2 / (g - 1) * a) xi then with_flag 1 (right_fan R RS c rho u P a xi) else (0%Z, 0, 0, 0)
+      if Rlt_dec (u - 2 / (g - 1) * a) xi then with_flag R 1 (right_fan R RS c clamp rho u P a xi) else (0%Z, 0, 0, 0)
     else (1%Z, rho, u, P).
   Proof.
-    unfold sample_left_vacuum, right_fan, with_flag, fan_coeff, c. rops. unfold Rltb.
+    unfold sample_left_vacuum, c. rops. unfold Rltb.
     destruct (Rlt_dec xi (u + a)); destruct (Rlt_dec (u - 2 / (g - 1) * a) xi); reflexivity.
   Qed.
 
@@ -579,10 +605,10 @@ Section Vacuum.
   Lemma right_fan_front_base : rfan_base g u a (u - 2 / (g - 1) * a) = 0.
   Proof. unfold rfan_base. field. repeat split; lra. Qed.
   Lemma left_fan_front_velocity :
-    snd (fst (left_fan R RS c rho u P a (u + 2 / (g - 1) * a))) = u + 2 / (g - 1) * a.
+    snd (fst (left_fan R RS c clamp rho u P a (u + 2 / (g - 1) * a))) = u + 2 / (g - 1) * a.
   Proof. unfold left_fan, c. rops. cbn [fst snd]. field. split; lra. Qed.
   Lemma right_fan_front_velocity :
-    snd (fst (right_fan R RS c rho u P a (u - 2 / (g - 1) * a))) = u - 2 / (g - 1) * a.
+    snd (fst (right_fan R RS c clamp rho u P a (u - 2 / (g - 1) * a))) = u - 2 / (g - 1) * a.
   Proof. unfold right_fan, c. rops. cbn [fst snd]. field. split; lra. Qed.
   Lemma left_fan_base_pos xi : xi < u + 2 / (g - 1) * a -> 0 < lfan_base g u a xi.
   Proof.
@@ -603,6 +629,7 @@ Section Vacuum.
 End Vacuum.
 
 Section VacuumGeneration.
+  Variable clamp : bool.
   Variables g rhoL uL PL aL rhoR uR PR aR : R.
   Hypothesis Hg : 1 < g.
   Hypothesis HaL : 0 < aL.
@@ -612,15 +639,15 @@ Section VacuumGeneration.
   Let c := rconsts g.
 
   Lemma vacuum_generation_cases xi :
-    sample_vacuum_generation R RS (cb R c) false rhoL uL PL aL rhoR uR PR aR xi =
+    sample_vacuum_generation R RS c clamp rhoL uL PL aL rhoR uR PR aR xi =
     if Rlt_dec xi (uL - aL) then ((-1)%Z, rhoL, uL, PL)
     else if Rle_dec xi (uL + 2 / (g - 1) * aL) then
-           (if Rlt_dec (uL - aL) xi then with_flag (-1) (left_fan R RS c rhoL uL PL aL xi) else ((-1)%Z, rhoL, uL, PL))
+           (if Rlt_dec (uL - aL) xi then with_flag R (-1) (left_fan R RS c clamp rhoL uL PL aL xi) else ((-1)%Z, rhoL, uL, PL))
     else if Rlt_dec xi (uR - 2 / (g - 1) * aR) then (0%Z, 0, 0, 0)
-    else if Rlt_dec xi (uR + aR) then with_flag 1 (right_fan R RS c rhoR uR PR aR xi)
+    else if Rlt_dec xi (uR + aR) then with_flag R 1 (right_fan R RS c clamp rhoR uR PR aR xi)
     else (1%Z, rhoR, uR, PR).
   Proof.
-    unfold sample_vacuum_generation, left_fan, right_fan, with_flag, fan_coeff, c. rops. unfold Rltb.
+    unfold sample_vacuum_generation, c. rops. unfold Rltb.
     assert (K : 0 < 2 / (g - 1)) by (apply Rdiv_lt_0_compat; lra).
     assert (0 < 2 / (g - 1) * aL) by (apply Rmult_lt_0_compat; lra).
     assert (0 < 2 / (g - 1) * aR) by (apply Rmult_lt_0_compat; lra).
@@ -1034,6 +1061,7 @@ Proof.
 Qed.
 
 Section Wrappers.
+  Variable clamp : bool.
   Variables g rho u P Ps : R.
   Hypothesis Hg : 1 < g.
   Hypothesis Hrho : 0 < rho.
@@ -1094,7 +1122,7 @@ Section Wrappers.
   Lemma sample_on_right_rarefaction xi : 0 < Ps -> Ps <= P ->
     let us := u + fK in
     let tail := right_tail_speed R RS c a (1 / P) us Ps in
-    let '(r, v, p) := sample_right_rarefaction_wave R RS c rho u P a (1 / P) us Ps xi in
+    let '(r, v, p) := sample_right_rarefaction_wave R RS c clamp rho u P a (1 / P) us Ps xi in
     tail <= u + a /\ 0 < r /\ p / Rpower r g = P / Rpower rho g /\
     exists al, 0 < al /\ al * al = g * p / r /\ v - 2 / (g - 1) * al = u - 2 / (g - 1) * a /\
                (tail <= xi < u + a -> v + al = xi) /\ (xi < tail -> v = us /\ p = Ps) /\ (u + a <= xi -> (r, v, p) = (rho, u, P)).
@@ -1105,9 +1133,9 @@ Section Wrappers.
     assert (Px : 0 < x) by apply Rpower_pos.
     assert (TS : right_tail_speed R RS c a (1 / P) (u + fK) Ps = u + fK + a * x) by (apply rr_tail_speed).
     rewrite TS.
-    assert (Cs : sample_right_rarefaction_wave R RS c rho u P a (1 / P) (u + fK) Ps xi =
+    assert (Cs : sample_right_rarefaction_wave R RS c clamp rho u P a (1 / P) (u + fK) Ps xi =
                  if Rlt_dec xi (u + fK + a * x) then (rho * Rpower (Ps * (1 / P)) (1 / g), u + fK, Ps)
-                 else if Rlt_dec xi (u + a) then right_fan R RS c rho u P a xi else (rho, u, P))
+                 else if Rlt_dec xi (u + a) then right_fan R RS c clamp rho u P a xi else (rho, u, P))
       by (apply sample_rr_cases; hyp).
     rewrite Cs. clear Cs.
     assert (Hord : u + fK + a * x <= u + a) by (apply rr_tail_before_head; hyp).
@@ -1125,12 +1153,12 @@ Section Wrappers.
         assert (Hb : x <= rfan_base g u a xi <= 1) by (apply (rr_base_in_fan g rho u P a Ps); first [exact n' | hyp]).
         assert (Hb' : 0 < rfan_base g u a xi) by lra.
         change c with (rconsts g).
-        set (FS := right_fan R RS (rconsts g) rho u P a xi).
+        set (FS := right_fan R RS (rconsts g) clamp rho u P a xi).
         assert (I : snd FS / Rpower (fst (fst FS)) g = P / Rpower rho g) by (apply rr_fan_isentropic; first [exact Hb' | hyp]).
         assert (S2 : a * rfan_base g u a xi * (a * rfan_base g u a xi) = g * snd FS / fst (fst FS)) by (apply rr_fan_soundspeed; first [exact Hb' | hyp]).
         assert (I2 : snd (fst FS) - 2 / (g - 1) * (a * rfan_base g u a xi) = u - 2 / (g - 1) * a) by (apply rr_fan_invariant; first [exact Hb' | hyp]).
         assert (Ch : snd (fst FS) + a * rfan_base g u a xi = xi) by (apply rr_fan_characteristic; first [exact Hb' | hyp]).
-        unfold FS in *. clear FS. rewrite (right_fan_eq g rho u P a xi) in *. cbn [fst snd] in I, S2, I2, Ch.
+        unfold FS in *. clear FS. rewrite (right_fan_eq clamp g rho u P a xi Hb') in *. cbn [fst snd] in I, S2, I2, Ch.
         split; [exact Hord|]. split; [apply Rmult_lt_0_compat; [lra | apply Rpower_pos]|].
         split; [exact I|].
         exists (a * rfan_base g u a xi). split; [apply Rmult_lt_0_compat; lra|].
@@ -1145,7 +1173,7 @@ Section Wrappers.
   Lemma sample_on_left_rarefaction xi : 0 < Ps -> Ps <= P ->
     let us := u - fK in
     let tail := left_tail_speed R RS c a (1 / P) us Ps in
-    let '(r, v, p) := sample_left_rarefaction_wave R RS c rho u P a (1 / P) us Ps xi in
+    let '(r, v, p) := sample_left_rarefaction_wave R RS c clamp rho u P a (1 / P) us Ps xi in
     u - a <= tail /\ 0 < r /\ p / Rpower r g = P / Rpower rho g /\
     exists al, 0 < al /\ al * al = g * p / r /\ v + 2 / (g - 1) * al = u + 2 / (g - 1) * a /\
                (u - a < xi < tail -> v - al = xi) /\ (u - a < xi -> tail <= xi -> v = us /\ p = Ps) /\ (xi <= u - a -> (r, v, p) = (rho, u, P)).
@@ -1156,9 +1184,9 @@ Section Wrappers.
     assert (Px : 0 < x) by apply Rpower_pos.
     assert (TS : left_tail_speed R RS c a (1 / P) (u - fK) Ps = u - fK - a * x) by (apply lr_tail_speed).
     rewrite TS.
-    assert (Cs : sample_left_rarefaction_wave R RS c rho u P a (1 / P) (u - fK) Ps xi =
+    assert (Cs : sample_left_rarefaction_wave R RS c clamp rho u P a (1 / P) (u - fK) Ps xi =
                  if Rlt_dec (u - a) xi then
-                   if Rlt_dec xi (u - fK - a * x) then left_fan R RS c rho u P a xi else (rho * Rpower (Ps * (1 / P)) (1 / g), u - fK, Ps)
+                   if Rlt_dec xi (u - fK - a * x) then left_fan R RS c clamp rho u P a xi else (rho * Rpower (Ps * (1 / P)) (1 / g), u - fK, Ps)
                  else (rho, u, P))
       by (apply sample_lr_cases; hyp).
     rewrite Cs. clear Cs.
@@ -1170,12 +1198,12 @@ Section Wrappers.
         assert (Hb : x <= lfan_base g u a xi <= 1) by (apply (lr_base_in_fan g rho u P a Ps); first [exact r0' | hyp]).
         assert (Hb' : 0 < lfan_base g u a xi) by lra.
         change c with (rconsts g).
-        set (FS := left_fan R RS (rconsts g) rho u P a xi).
+        set (FS := left_fan R RS (rconsts g) clamp rho u P a xi).
         assert (I : snd FS / Rpower (fst (fst FS)) g = P / Rpower rho g) by (apply lr_fan_isentropic; first [exact Hb' | hyp]).
         assert (S2 : a * lfan_base g u a xi * (a * lfan_base g u a xi) = g * snd FS / fst (fst FS)) by (apply lr_fan_soundspeed; first [exact Hb' | hyp]).
         assert (I2 : snd (fst FS) + 2 / (g - 1) * (a * lfan_base g u a xi) = u + 2 / (g - 1) * a) by (apply lr_fan_invariant; first [exact Hb' | hyp]).
         assert (Ch : snd (fst FS) - a * lfan_base g u a xi = xi) by (apply lr_fan_characteristic; first [exact Hb' | hyp]).
-        unfold FS in *. clear FS. rewrite (left_fan_eq g rho u P a xi) in *. cbn [fst snd] in I, S2, I2, Ch.
+        unfold FS in *. clear FS. rewrite (left_fan_eq clamp g rho u P a xi Hb') in *. cbn [fst snd] in I, S2, I2, Ch.
         split; [exact Hord|]. split; [apply Rmult_lt_0_compat; [lra | apply Rpower_pos]|].
         split; [exact I|].
         exists (a * lfan_base g u a xi). split; [apply Rmult_lt_0_compat; lra|].
@@ -1198,52 +1226,52 @@ Section Wrappers.
   Lemma right_rarefaction_continuous : 0 < Ps -> Ps <= P ->
     let us := u + fK in
     let tail := right_tail_speed R RS c a (1 / P) us Ps in
-    right_fan R RS c rho u P a (u + a) = (rho, u, P) /\
-    right_fan R RS c rho u P a tail = (rho * Rpower (Ps * (1 / P)) (ginv R c), us, Ps).
+    right_fan R RS c clamp rho u P a (u + a) = (rho, u, P) /\
+    right_fan R RS c clamp rho u P a tail = (rho * Rpower (Ps * (1 / P)) (ginv R c), us, Ps).
   Proof.
     intros H0 H1. cbv zeta. assert (Pa := a_pos).
     split; [apply rr_fan_head; hyp|].
     assert (TS : right_tail_speed R RS c a (1 / P) (u + fK) Ps = u + fK + a * Rpower (Ps * (1 / P)) (1 / 2 * (g - 1) / g)) by (apply rr_tail_speed).
-    rewrite TS. apply (rr_fan_tail g rho u P a Ps); hyp.
+    rewrite TS. apply (rr_fan_tail clamp g rho u P a Ps); hyp.
   Qed.
 
   Lemma left_rarefaction_continuous : 0 < Ps -> Ps <= P ->
     let us := u - fK in
     let tail := left_tail_speed R RS c a (1 / P) us Ps in
-    left_fan R RS c rho u P a (u - a) = (rho, u, P) /\
-    left_fan R RS c rho u P a tail = (rho * Rpower (Ps * (1 / P)) (ginv R c), us, Ps).
+    left_fan R RS c clamp rho u P a (u - a) = (rho, u, P) /\
+    left_fan R RS c clamp rho u P a tail = (rho * Rpower (Ps * (1 / P)) (ginv R c), us, Ps).
   Proof.
     intros H0 H1. cbv zeta. assert (Pa := a_pos).
     split; [apply lr_fan_head; hyp|].
     assert (TS : left_tail_speed R RS c a (1 / P) (u - fK) Ps = u - fK - a * Rpower (Ps * (1 / P)) (1 / 2 * (g - 1) / g)) by (apply lr_tail_speed).
-    rewrite TS. apply (lr_fan_tail g rho u P a Ps); hyp.
+    rewrite TS. apply (lr_fan_tail clamp g rho u P a Ps); hyp.
   Qed.
 
   (* (c) vacuum: the samplers next to vacuum are the same fan expressions; they start at the undisturbed state and
      end, at the front, with a vanishing base of the density/pressure powers and the gas moving with the front *)
   Lemma vacuum_joins_fan :
-    (forall xi, sample_right_vacuum R RS (cb R c) rho u P a xi =
+    (forall xi, sample_right_vacuum R RS c clamp rho u P a xi =
        if Rlt_dec (u - a) xi then
-         if Rlt_dec xi (u + 2 / (g - 1) * a) then with_flag (-1) (left_fan R RS c rho u P a xi) else (0%Z, 0, 0, 0)
+         if Rlt_dec xi (u + 2 / (g - 1) * a) then with_flag R (-1) (left_fan R RS c clamp rho u P a xi) else (0%Z, 0, 0, 0)
        else ((-1)%Z, rho, u, P)) /\
-    (forall xi, sample_left_vacuum R RS (cb R c) false rho u P a xi =
+    (forall xi, sample_left_vacuum R RS c clamp rho u P a xi =
        if Rlt_dec xi (u + a) then
-         if Rlt_dec (u - 2 / (g - 1) * a) xi then with_flag 1 (right_fan R RS c rho u P a xi) else (0%Z, 0, 0, 0)
+         if Rlt_dec (u - 2 / (g - 1) * a) xi then with_flag R 1 (right_fan R RS c clamp rho u P a xi) else (0%Z, 0, 0, 0)
        else (1%Z, rho, u, P)) /\
-    left_fan R RS c rho u P a (u - a) = (rho, u, P) /\ right_fan R RS c rho u P a (u + a) = (rho, u, P) /\
-    (forall xi, left_fan R RS c rho u P a xi =
+    left_fan R RS c clamp rho u P a (u - a) = (rho, u, P) /\ right_fan R RS c clamp rho u P a (u + a) = (rho, u, P) /\
+    (forall xi, 0 < lfan_base g u a xi -> left_fan R RS c clamp rho u P a xi =
        (rho * Rpower (lfan_base g u a xi) (2 / (g - 1)), 2 / (g + 1) * (a + 1 / 2 * (g - 1) * u + xi), P * Rpower (lfan_base g u a xi) (2 * g / (g - 1)))) /\
-    (forall xi, right_fan R RS c rho u P a xi =
+    (forall xi, 0 < rfan_base g u a xi -> right_fan R RS c clamp rho u P a xi =
        (rho * Rpower (rfan_base g u a xi) (2 / (g - 1)), 2 / (g + 1) * (- a + 1 / 2 * (g - 1) * u + xi), P * Rpower (rfan_base g u a xi) (2 * g / (g - 1)))) /\
     lfan_base g u a (u + 2 / (g - 1) * a) = 0 /\ rfan_base g u a (u - 2 / (g - 1) * a) = 0 /\
     (forall xi, xi < u + 2 / (g - 1) * a -> 0 < lfan_base g u a xi) /\ (forall xi, u - 2 / (g - 1) * a < xi -> 0 < rfan_base g u a xi) /\
-    snd (fst (left_fan R RS c rho u P a (u + 2 / (g - 1) * a))) = u + 2 / (g - 1) * a /\
-    snd (fst (right_fan R RS c rho u P a (u - 2 / (g - 1) * a))) = u - 2 / (g - 1) * a.
+    snd (fst (left_fan R RS c clamp rho u P a (u + 2 / (g - 1) * a))) = u + 2 / (g - 1) * a /\
+    snd (fst (right_fan R RS c clamp rho u P a (u - 2 / (g - 1) * a))) = u - 2 / (g - 1) * a.
   Proof.
     assert (Pa := a_pos).
     split; [intros; apply right_vacuum_cases|]. split; [intros; apply left_vacuum_cases|].
     split; [apply lr_fan_head; hyp|]. split; [apply rr_fan_head; hyp|].
-    split; [intros; apply left_fan_eq|]. split; [intros; apply right_fan_eq|].
+    split; [intros; apply left_fan_eq; assumption|]. split; [intros; apply right_fan_eq; assumption|].
     split; [apply left_fan_front_base; hyp|]. split; [apply right_fan_front_base; hyp|].
     split; [intros; apply left_fan_base_pos; hyp|]. split; [intros; apply right_fan_base_pos; hyp|].
     split; [apply left_fan_front_velocity; hyp | apply right_fan_front_velocity; hyp].
@@ -1252,6 +1280,7 @@ End Wrappers.
 
 (* ---------------- solve(): which sampler answers, for non-vacuum input ---------------- *)
 Section Solve.
+  Variable clamp : bool.
   Variables g rhoL uL PL rhoR uR PR : R.
   Hypothesis Hg : 1 < g.
   Hypothesis HrhoL : 0 < rhoL. Hypothesis HPL : 0 < PL.
@@ -1263,17 +1292,17 @@ Section Solve.
   Lemma solve_nonvacuum nf bf xi :
     uR - uL < 2 / (g - 1) * aL + 2 / (g - 1) * aR ->
     let st := star_state R RS c nf bf rhoL uL PL rhoR uR PR in
-    solve R RS c nf bf rhoL uL PL rhoR uR PR xi = (sample_star R RS c st rhoL uL PL rhoR uR PR xi, Some st).
+    solve R RS c clamp nf bf rhoL uL PL rhoR uR PR xi = (sample_star R RS c clamp st rhoL uL PL rhoR uR PR xi, Some st).
   Proof.
-    intros Hv. cbv zeta. unfold solve, exact_solve_novac, is_vacuum.
+    intros Hv. cbv zeta. unfold solve, solve_novac, is_vacuum.
     cbn [seqb sisinf s0 RS ROps orb].
     assert (E1 : Reqb rhoL 0 = false) by (apply Reqb_false; lra).
     assert (E2 : Reqb PL 0 = false) by (apply Reqb_false; lra).
     assert (E3 : Reqb rhoR 0 = false) by (apply Reqb_false; lra).
     assert (E4 : Reqb PR 0 = false) by (apply Reqb_false; lra).
     rewrite E1, E2, E3, E4. cbn [orb].
-    change (get_soundspeed R RS (cb R c) (sdiv RS (s1 RS) rhoL) PL) with aL.
-    change (get_soundspeed R RS (cb R c) (sdiv RS (s1 RS) rhoR) PR) with aR.
+    change (soundspeed R RS c (sdiv RS (s1 RS) rhoL) PL) with aL.
+    change (soundspeed R RS c (sdiv RS (s1 RS) rhoR) PR) with aR.
     cbn [sleb sadd smul ssub RS ROps tdgm1 cb c rconsts].
     assert (E5 : Rleb (2 / (g - 1) * aL + 2 / (g - 1) * aR) (uR - uL) = false) by (apply Rleb_false; lra).
     rewrite E5. reflexivity.
@@ -1281,34 +1310,34 @@ Section Solve.
 
   Lemma solve_vacuum_generation nf bf xi :
     2 / (g - 1) * aL + 2 / (g - 1) * aR <= uR - uL ->
-    solve R RS c nf bf rhoL uL PL rhoR uR PR xi =
-    (sample_vacuum_generation R RS (cb R c) false rhoL uL PL aL rhoR uR PR aR xi, None).
+    solve R RS c clamp nf bf rhoL uL PL rhoR uR PR xi =
+    (sample_vacuum_generation R RS c clamp rhoL uL PL aL rhoR uR PR aR xi, None).
   Proof.
-    intros Hv. unfold solve, exact_solve_novac, is_vacuum.
+    intros Hv. unfold solve, solve_novac, is_vacuum.
     cbn [seqb sisinf s0 RS ROps orb].
     assert (E1 : Reqb rhoL 0 = false) by (apply Reqb_false; lra).
     assert (E2 : Reqb PL 0 = false) by (apply Reqb_false; lra).
     assert (E3 : Reqb rhoR 0 = false) by (apply Reqb_false; lra).
     assert (E4 : Reqb PR 0 = false) by (apply Reqb_false; lra).
     rewrite E1, E2, E3, E4. cbn [orb].
-    change (get_soundspeed R RS (cb R c) (sdiv RS (s1 RS) rhoL) PL) with aL.
-    change (get_soundspeed R RS (cb R c) (sdiv RS (s1 RS) rhoR) PR) with aR.
+    change (soundspeed R RS c (sdiv RS (s1 RS) rhoL) PL) with aL.
+    change (soundspeed R RS c (sdiv RS (s1 RS) rhoR) PR) with aR.
     cbn [sleb sadd smul ssub RS ROps tdgm1 cb c rconsts].
     assert (E5 : Rleb (2 / (g - 1) * aL + 2 / (g - 1) * aR) (uR - uL) = true) by (apply Rleb_true; lra).
-    rewrite E5. unfold exact_solve_vacuum. cbn [andb]. reflexivity.
+    rewrite E5. unfold solve_vacuum. cbn [andb]. reflexivity.
   Qed.
 
   Lemma sample_star_dispatch st xi :
     (st_code R st = 2%Z \/ st_code R st = 3%Z) ->
-    sample_star R RS c st rhoL uL PL rhoR uR PR xi =
+    sample_star R RS c clamp st rhoL uL PL rhoR uR PR xi =
     if Rlt_dec (st_u R st) xi then
-      with_flag 1 (if Rlt_dec PR (st_P R st)
+      with_flag R 1 (if Rlt_dec PR (st_P R st)
                    then sample_right_shock_wave R RS c rhoR uR PR aR (1 / PR) (st_u R st) (st_P R st) xi
-                   else sample_right_rarefaction_wave R RS c rhoR uR PR aR (1 / PR) (st_u R st) (st_P R st) xi)
+                   else sample_right_rarefaction_wave R RS c clamp rhoR uR PR aR (1 / PR) (st_u R st) (st_P R st) xi)
     else
-      with_flag (-1) (if Rlt_dec PL (st_P R st)
+      with_flag R (-1) (if Rlt_dec PL (st_P R st)
                       then sample_left_shock_wave R RS c rhoL uL PL aL (1 / PL) (st_u R st) (st_P R st) xi
-                      else sample_left_rarefaction_wave R RS c rhoL uL PL aL (1 / PL) (st_u R st) (st_P R st) xi).
+                      else sample_left_rarefaction_wave R RS c clamp rhoL uL PL aL (1 / PL) (st_u R st) (st_P R st) xi).
   Proof.
     intros Hc. unfold sample_star, sample_right_state, sample_left_state, with_flag.
     assert (E1 : (st_code R st =? 4)%Z = false) by (destruct Hc as [H | H]; rewrite H; reflexivity).
@@ -1320,17 +1349,53 @@ Section Solve.
 End Solve.
 
 (* Brent with non-negative bracket ends (pressures): a root of a continuous f lies within tol (a + b) of the returned b *)
-Lemma solve_brent_root_close (f : R -> R) fuel Plow Phigh bs n :
+Lemma solve_brent_root_close pw (f : R -> R) fuel Plow Phigh bs n :
   continuity f -> 0 <= Plow -> 0 <= Phigh ->
-  solve_brent R RS f fuel Plow Phigh (f Plow) (f Phigh) = Some (bs, n, false) ->
+  solve_brent R (RSpw pw) f fuel Plow Phigh (f Plow) (f Phigh) = Some (bs, n, false) ->
   exists z, f z = 0 /\ Rmin Plow Phigh <= z <= Rmax Plow Phigh /\ Rmin Plow Phigh <= bb R bs <= Rmax Plow Phigh /\
-            Rabs (z - bb R bs) <= tol R RS * (ba R bs + bb R bs).
+            Rabs (z - bb R bs) <= tol R (RSpw pw) * (ba R bs + bb R bs).
 Proof.
   intros Hc H1 H2 Q. assert (Q' := Q). apply solve_brent_spec in Q'. destruct Q' as [(Ha & Hb & Efa & Efb & Hs & Habs) X].
-  destruct (solve_brent_accuracy f fuel Plow Phigh bs n Hc Q) as [z [(E & Hz & D) | E]].
+  destruct (solve_brent_accuracy pw f fuel Plow Phigh bs n Hc Q) as [z [(E & Hz & D) | E]].
   - exists z. repeat split; try assumption; try apply Hz; try apply Hb.
   - exists (bb R bs). split; [exact E|]. split; [exact Hb|]. split; [exact Hb|].
     replace (bb R bs - bb R bs) with 0 by ring. rewrite Rabs_R0.
     assert (0 <= Rmin Plow Phigh) by (apply Rmin_glb; assumption).
-    assert (T := tol_pos). apply Rmult_le_pos; lra.
+    assert (T := tol_pos_pw pw). apply Rmult_le_pos; lra.
 Qed.
+
+(* ---------------- the pressure function with the C value of pow at 0 ---------------- *)
+Section CPow.
+  Variables g rhoL uL PL rhoR uR PR : R.
+  Hypothesis Hg : 1 < g.
+  Hypothesis HPL : 0 < PL. Hypothesis HPR : 0 < PR.
+  Let c := rconsts g.
+  Let aL := soundspeed R RS c (1 / rhoL) PL.
+  Let aR := soundspeed R RS c (1 / rhoR) PR.
+
+  (* at P = 0 it is the (negated) vacuum-generation margin: the first Brent bracket [0, guess] has f(0) < 0 exactly
+     when solve() did not take the vacuum-generation branch *)
+  Lemma pressure_function_cpow_at_0 :
+    pressure_function_pw cpow g rhoL uL PL rhoR uR PR 0 = (uR - uL) - (2 / (g - 1) * aL + 2 / (g - 1) * aR).
+  Proof.
+    unfold pressure_function_pw, fb. ropsx.
+    assert (E1 : Rltb PL 0 = false) by (apply Rltb_false; lra).
+    assert (E2 : Rltb PR 0 = false) by (apply Rltb_false; lra).
+    rewrite E1, E2. rewrite !Rmult_0_l.
+    assert (He : 0 < 1 / 2 * (g - 1) / g) by (apply Rdiv_lt_0_compat; lra).
+    rewrite !cpow_0 by exact He.
+    change (soundspeed R (RSpw cpow) (rconsts g) (1 / rhoL) PL) with aL.
+    change (soundspeed R (RSpw cpow) (rconsts g) (1 / rhoR) PR) with aR.
+    ring.
+  Qed.
+
+  (* for positive pressures it is the function the wave and monotonicity theorems are about *)
+  Lemma pressure_function_cpow_pos p : 0 < p ->
+    pressure_function_pw cpow g rhoL uL PL rhoR uR PR p = pressure_function g rhoL uL PL rhoR uR PR p.
+  Proof.
+    intros Hp. unfold pressure_function, pressure_function_pw, fb. ropsx.
+    assert (Q1 : 0 < p * (1 / PL)) by (apply Rmult_lt_0_compat; [lra | apply Rdiv_lt_0_compat; lra]).
+    assert (Q2 : 0 < p * (1 / PR)) by (apply Rmult_lt_0_compat; [lra | apply Rdiv_lt_0_compat; lra]).
+    rewrite !cpow_pos by assumption. reflexivity.
+  Qed.
+End CPow.
